@@ -282,7 +282,7 @@ def run(ctx):
     cov.update({
         "evaluations": total,
         "distinct_nontrivial": len(coq_cases),
-        "rule": "damaged archives generated from consul-written base archives (every single-bit flip at every byte of the small bases -- thorough: all 255 XOR masks --, masks 01/20/80/FF strided on the large ones, every truncation length, member removal/duplication/reordering/injection/renaming/replacement, SHA256SUMS rewrites incl. lines over 64 KiB, PAX/GNU long names, gzip multistream; plain and gzip), plus one intact archive per generated metadata value; distinct_nontrivial = archives with a distinct neutral member view AND evaluated in Coq (model result, glue completeness, corruptb/faultb against the intact view, model write for intact ones); all archives get the direct oracle",
+        "rule": "damaged archives generated from consul-written base archives (every single-bit flip at every byte of the small bases -- thorough: all 255 XOR masks on the four smallest, all of them through the reader and the oracle, Coq evaluating all 255 on the two smallest plain archives and the single-bit masks and FF elsewhere --, masks 01/20/80/FF strided on the large ones (thorough: 9 masks, every byte), every truncation length, member removal/duplication/reordering/injection/renaming/replacement, SHA256SUMS rewrites incl. lines over 64 KiB, PAX/GNU long names, gzip multistream; plain and gzip), plus one intact archive per generated metadata value; distinct_nontrivial = archives with a distinct neutral member view AND evaluated in Coq (model result, glue completeness, corruptb/faultb against the intact view, model write for intact ones); all archives get the direct oracle",
         "traces_validated_against_impl": len(coq_cases),
         "model_mismatches": bits.get("model-result-differs", 0),
         "coq_verdict_bits": dict(bits),
